@@ -109,7 +109,7 @@ def run(ctx):
         il, il2 = [], []
         for nm, twin, spec, expr, match, kind, fl in cases:
             # -H with a starting point that is a real directory: links below it are not followed, exactly as under -P
-            il.append("find - %s %s" % (fw.hexs(forest.dir), xc.hexlist(fl + [nm, b"-sorted"] + [e.encode() for e in expr] + [b"-print0", b"-delete"])))
+            il.append("find - %s %s" % (fw.hexs(forest.dir), xc.hexlist(fl + [nm, b"-sorted"] + [e.encode() for e in expr] + [b"-print0", b"-delete", b"-printf", b"D:%p\\0"])))
             il2.append("find - %s %s" % (fw.hexs(forest.dir), xc.hexlist([twin, b"-depth", b"-sorted"] + [e.encode() for e in expr] + [b"-print0"])))
         cases = [c[:6] for c in cases]
         before = {nm: snapshot(os.path.join(forest.dir, nm)) for nm, *_ in cases}
@@ -149,6 +149,16 @@ def run(ctx):
             ntotal = len(fstree.all_paths(spec))
             ctx.count((nm, tuple(expr), ctx.seed), 0 < nmatched < ntotal, ["expr=" + kind, "rmdir_failed=" + failed])
             problems = []
+            # what -print0 reported (reached, before removal) and what came out of -delete true (the -printf behind it)
+            recs = out.split(b"\0")[:-1]
+            deleted_true = [r[2:] for r in recs if r.startswith(b"D:")]
+            out = b"".join(r + b"\0" for r in recs if not r.startswith(b"D:"))
+            exp_true = [nm if not p else nm + b"/" + b"/".join(p) for p in removed_paths]
+            if deleted_true != exp_true:
+                problems.append("-delete was true on %r; the entries removed are %r" % (deleted_true[:6], exp_true[:6]))
+            nd = wc.diagnostics(i)
+            if nd is not None and nd != nmatched - len(removed_paths):
+                problems.append("%d diagnostics for %d entries that could not be removed" % (nd, nmatched - len(removed_paths)))
             if after != exp_after:
                 problems.append("tree after the run differs from (before minus the matched entries)")
             if (code != 0) != (failed == "1"):
